@@ -21,7 +21,7 @@ ASSUMPTIONS = ['every transcription is over its own engine\'s charset', 'the mea
                'confidence equality within 1e-12']
 N = {'quick': 1500, 'thorough': 60000}
 CLASSES = ['mixed', 'mixed', 'ties', 'self_merge', 'all_empty', 'different_charsets', 'single_engine', 'unalignable', 'per_line_charsets', 'merge_of_merges', 'near_ties', 'raw_scores', 'repeated_ids', 'same_text', 'regrouped']
-REQUIRED = ['merges_of_differently_grouped_layouts', 'winner_not_first_with_the_same_text', 'near_ties_checked', 'lines_with_ids_repeated_per_region', 'raw_score_lines', 'main_runs', 'main_tie_lines', 'per_line_charset_merges', 'merges', 'lines_checked', 'winner_not_first', 'ties_checked', 'self_merges', 'no_positive_confidence_lines']
+REQUIRED = ['main_runs_with_a_minimum_confidence', 'lines_of_tables_without_a_blank_entry', 'merges_of_differently_grouped_layouts', 'winner_not_first_with_the_same_text', 'near_ties_checked', 'lines_with_ids_repeated_per_region', 'raw_score_lines', 'main_runs', 'main_tie_lines', 'per_line_charset_merges', 'merges', 'lines_checked', 'winner_not_first', 'ties_checked', 'self_merges', 'no_positive_confidence_lines']
 
 
 def setup(ctx):
@@ -90,6 +90,13 @@ def gen(rng, i, ctx):
             for ld in en['lines']:
                 ld['mode'] = 'transformer'
                 ld['magnitude'] = float(rng.choice([30.0, 200.0, 1000.0]))
+        # (round 7) half of these pages come from sequence-to-sequence recognisers whose character tables have no blank entry: the last class is a character too
+        if rng.random() < 0.5:
+            for en in engines:
+                for ld in en['lines']:
+                    ld['no_blank'] = True
+                    if ld['text']:
+                        ld['text'] = ld['text'] + en['chars'][-1]
     case = {'cls': cls, 'engines': engines, 'nl': nl}
     if cls == 'repeated_ids':
         case['ids_per_region'] = True          # lines numbered per region: l0, l1 in r1 and again in r2
@@ -105,7 +112,8 @@ def build_layout(L, eng, nl, ids_per_region=False, first_region_lines=None):
     regs = [L.RegionLayout('r1', np.array([[0, 0], [600, 0], [600, 200], [0, 200]])), L.RegionLayout('r2', np.array([[0, 200], [600, 200], [600, 400], [0, 400]]))]
     for k, ld in enumerate(eng['lines']):
         cs = ld.get('chars', eng['chars'])
-        C = len(cs) + 1
+        no_blank = bool(ld.get('no_blank')) and ld['mode'] == 'transformer'       # a sequence-to-sequence model: every output class is a character, the table has no blank entry
+        C = len(cs) + (0 if no_blank else 1)
         rng = np.random.default_rng(ld['seed'])
         t = ld['text']
         labels = [cs.index(ch) for ch in (t if t else 'a' if 'a' in cs else cs[0])]
@@ -124,7 +132,7 @@ def build_layout(L, eng, nl, ids_per_region=False, first_region_lines=None):
         lg[lg == 0] = 0.01
         line = L.TextLine(id='l%d' % (k // 2 if ids_per_region else k), baseline=np.array([[10.0, 20.0 + 30 * k], [500.0, 22.0 + 30 * k]]),
                           polygon=np.array([[10, 5 + 30 * k], [500, 5 + 30 * k], [500, 28 + 30 * k], [10, 28 + 30 * k]], dtype=np.float64),
-                          heights=[15.0, 6.0], transcription=t, logits=sparse.csc_matrix(lg), characters=list(cs) + ['<b>'], logit_coords=[0, lg.shape[0]])
+                          heights=[15.0, 6.0], transcription=t, logits=sparse.csc_matrix(lg), characters=list(cs) + ([] if no_blank else ['<b>']), logit_coords=[0, lg.shape[0]])
         # engine outputs read from PAGE XML already carry a (rounded) confidence of their own; merging compares what the posteriors say
         line.transcription_confidence = [None, 0.999, 0.0, 0.5, 0.812][(ld['seed'] + k) % 5]
         regs[k % 2 if first_region_lines is None else (0 if k < first_region_lines else 1)].lines.append(line)
@@ -139,6 +147,11 @@ def expected_conf(ctx, line):
     idx = np.asarray([cmap[c] for c in line.transcription])
     # the oracle evaluates a FRESH line object carrying the same logits, so that nothing cached on the long-lived line can leak into it
     fresh = ctx.layout.TextLine(logits=line.logits, characters=line.characters)
+    if line.logits.shape[0] == len(idx) and line.logits.nnz == line.logits.shape[0] * line.logits.shape[1]:
+        # one row per character (a sequence-to-sequence recogniser) and every score stored: the posterior of each character in its own row, computed here
+        d = np.asarray(line.logits.todense(), dtype=np.float64)
+        lp = d - np.logaddexp.reduce(d, axis=1)[:, None]
+        return float(np.mean(np.exp(lp[np.arange(len(idx)), idx])))
     try:
         return float(np.mean(ctx.ce.get_line_confidence(fresh, idx)))
     except ValueError:
@@ -183,6 +196,8 @@ def run_merge(case, order, mon, ctx):
     mon.count('merges')
     if case['cls'] == 'raw_scores':
         mon.count('raw_score_lines', nl)
+        if any(ld.get('no_blank') for en in case['engines'] for ld in en['lines']):
+            mon.count('lines_of_tables_without_a_blank_entry', nl)
     if case['cls'] in ('per_line_charsets', 'merge_of_merges'):
         mon.count('per_line_charset_merges')
     merged = layouts[0]
@@ -264,6 +279,8 @@ def extra(mon, ctx):
             lines = []
             for l in range(nl):
                 kind = str(rng.choice(['tie_unalignable', 'tie_unalignable', 'text', 'empty']))
+                if rep % 3 == 2 and l == 0:
+                    kind = 'tie_unalignable'         # (a line that every engine reads with confidence 0.5: below the minimum confidence of this run)
                 cs = list(BASE)
                 t = ''.join(cs[int(k)] for k in rng.integers(0, len(cs) - 1, size=int(rng.integers(2, 7)))) if kind != 'empty' else ''
                 lines.append({'text': t, 'mode': 'short' if kind == 'tie_unalignable' else str(rng.choice(['peaky', 'noisy'])), 'seed': int(rng.integers(0, 1 << 30)), 'kind': kind})
@@ -277,6 +294,9 @@ def extra(mon, ctx):
             if engines[0]['lines'][l]['kind'] == 'tie_unalignable' and not engines[0]['lines'][l]['text']:
                 engines[0]['lines'][l]['text'] = 'ba'
         layouts = [build_layout(L, e, nl) for e in engines]
+        if rep % 3 == 2:
+            for line in layouts[0].lines_iterator():
+                line.transcription_confidence = 0.93           # stale confidences in the first engine's files
         for name, pl in zip(names, layouts):
             d = os.path.join(root, name)
             os.makedirs(d)
@@ -289,18 +309,21 @@ def extra(mon, ctx):
             pl.load_logits(os.path.join(root, name, 'page.logits'))
             loaded.append(pl)
         confs = [[expected_conf(ctx, l) for l in pl.lines_iterator()] for pl in loaded]
-        want = []
+        want, best_conf = [], []
         for li in range(nl):
             best, bi = 0, None
             for e in range(len(names)):
                 if confs[e][li] > best:
                     best, bi = confs[e][li], e
             want.append(list(loaded[bi if bi is not None else 0].lines_iterator())[li].transcription)
+            best_conf.append(best)
             pos = sorted([c[li] for c in confs if c[li] > 0], reverse=True)
             if len(pos) >= 2 and pos[0] == pos[1]:
                 mon.count('main_tie_lines')
         old = sys.argv
-        sys.argv = ['merge_ocr_results.py', '--output-path', os.path.join(root, 'out')] + [os.path.join(root, n) for n in names]
+        # (round 7) every third run asks the script to drop lines that no engine read with more than the given confidence (the inputs carry stale confidences of their own)
+        min_conf = [None, None, 0.6][rep % 3]
+        sys.argv = ['merge_ocr_results.py', '--output-path', os.path.join(root, 'out')] + ([] if min_conf is None else ['--min-confidence', str(min_conf)]) + [os.path.join(root, n) for n in names]
         try:
             with contextlib.redirect_stdout(io.StringIO()):
                 M.main()
@@ -314,6 +337,11 @@ def extra(mon, ctx):
         mon.cur_desc = {'leg': 'merge_ocr_results.main()', 'engine_directories_in_command_line_order': names, 'lines': nl}
         out = L.PageLayout(file=os.path.join(root, 'out', 'page.xml'))
         got = [l.transcription for l in out.lines_iterator()]
+        if min_conf is not None:
+            mon.count('main_runs_with_a_minimum_confidence')
+            if any(abs(c - min_conf) < 1e-6 for c in best_conf):
+                continue
+            want = [t for t, c in zip(want, best_conf) if c > min_conf]
         norm = lambda t: t if t else None
         if [norm(x) for x in got] != [norm(x) for x in want]:
             mon.violation('keeps-most-confident-transcription', {'via': 'main()', 'directories': names, 'got': got, 'expected': want, 'confidences': confs})
